@@ -222,8 +222,13 @@ def run(ctx):
                                      "issue": "seeded call not reproducible or it used numpy's global random state"}, site="permute_incidence_fixed_sums")
         # Experiment.randomize / sim_npc / westfall_young with a seed
         grp = np.array([0, 0, 0, 1, 1, 1, 1]); resp = np.array([[float(ctx.rng.randint(0, 9)), float(ctx.rng.randint(0, 9))] for _ in range(7)])
+        strat_ = ctx.rng.random() < 0.5
+        cov_ = np.array([[0], [1], [0], [1], [0], [1], [1]])
         def mk():
+            if strat_:      # the stratified randomizer (covariate column = stratum)
+                return npc.Experiment(grp, resp, cov_, npc.Experiment.Randomizer(randomize=npc.randomize_in_strata))
             return npc.Experiment(grp, resp)
+        ctx.count("experiment-stratified-randomizer" if strat_ else "experiment-default-randomizer")
         tests = npc.Experiment.make_test_array(npc.Experiment.TestFunc.mean_diff, [0, 1])
         outs = []
         ekind = ctx.rng.choice(["int", "int", "randomstate", "sha256"])
